@@ -23,24 +23,27 @@ package measure
 
 //@ section C02 C03
 //
+// tag-family and field columns (nested slices of byte strings) are outside the model: values of these types are opaque
+//@ type columnFamily
+//@   opaque
+//@ type blockPointer
+//@   ghost topN bool
+//
 // column copies (tag families, fields) are not modelled: their effect is confined to the target's column headers
 //@ func blockPointer.appendTagFamilies
 //@   assumed copies rows [b.idx, offset) of every tag column of b into bi (nested column slices are not modelled)
 //@   modifies bi.tagFamilies
 //@   ensures  fresh(bi.tagFamilies) || sameobj(bi.tagFamilies, old(bi.tagFamilies))
 //@ func fullFieldAppend
-//@   assumed copies rows [b.idx, offset) of every field column (not modelled)
-//@   modifies bi.field
-//@   ensures  fresh(bi.field.columns) || sameobj(bi.field.columns, old(bi.field.columns))
+//@   assumed copies rows [b.idx, offset) of every field column (opaque: not modelled)
 //@ func fastFieldAppend
-//@   assumed copies rows [b.idx, offset) of every field column when the layouts agree, else reports an error and leaves bi unchanged (not modelled)
-//@   modifies bi.field
-//@   ensures  fresh(bi.field.columns) || sameobj(bi.field.columns, old(bi.field.columns))
+//@   assumed copies rows [b.idx, offset) of every field column when the layouts agree, else reports an error and leaves bi unchanged (opaque: not modelled)
 //
 // rows of b from its cursor up to offset are appended to bi: timestamps and versions element by element, b untouched
 //@ spec func rowsAppended(bi *blockPointer, b *blockPointer, n0 int, from int, cnt int) bool =
 //@     len(bi.timestamps) == n0 + cnt && len(bi.versions) == n0 + cnt &&
-//@     (forall j :: 0 <= j && j < cnt ==> bi.timestamps[n0+j] == b.timestamps[from+j] && bi.versions[n0+j] == b.versions[from+j])
+//@     (forall t :: n0 <= t && t < n0 + cnt ==> bi.timestamps[t] == b.timestamps[from + (t - n0)]) &&
+//@     (forall t :: n0 <= t && t < n0 + cnt ==> bi.versions[t] == b.versions[from + (t - n0)])
 //@ func blockPointer.append
 //@   mode int
 //@   inline assertIdxAndOffset
@@ -53,8 +56,7 @@ package measure
 //@   modifies bi.timestamps[len(bi.timestamps):cap(bi.timestamps)]
 //@   modifies bi.versions[len(bi.versions):cap(bi.versions)]
 //@   modifies bi.tagFamilies
-//@   modifies bi.field
-//@   ensures  shape-cols: (fresh(bi.tagFamilies) || sameobj(bi.tagFamilies, old(bi.tagFamilies))) && (fresh(bi.field.columns) || sameobj(bi.field.columns, old(bi.field.columns)))
+//@   ensures  shape-cols: fresh(bi.tagFamilies) || sameobj(bi.tagFamilies, old(bi.tagFamilies))
 //@   ensures  shape: (fresh(bi.timestamps) || (sameobj(bi.timestamps, old(bi.timestamps)) && off(bi.timestamps) == off(old(bi.timestamps)) && cap(bi.timestamps) == cap(old(bi.timestamps)))) && (fresh(bi.versions) || (sameobj(bi.versions, old(bi.versions)) && off(bi.versions) == off(old(bi.versions)) && cap(bi.versions) == cap(old(bi.versions))))
 //@   ensures  nothing: offset <= b.idx ==> samehdr(bi.timestamps, old(bi.timestamps)) && samehdr(bi.versions, old(bi.versions))
 //@   ensures  appended: offset > b.idx ==> rowsAppended(bi, b, old(len(bi.timestamps)), b.idx, offset - b.idx)
@@ -71,8 +73,7 @@ package measure
 //@   modifies bi.timestamps[len(bi.timestamps):cap(bi.timestamps)]
 //@   modifies bi.versions[len(bi.versions):cap(bi.versions)]
 //@   modifies bi.tagFamilies
-//@   modifies bi.field
-//@   ensures  shape-cols: (fresh(bi.tagFamilies) || sameobj(bi.tagFamilies, old(bi.tagFamilies))) && (fresh(bi.field.columns) || sameobj(bi.field.columns, old(bi.field.columns)))
+//@   ensures  shape-cols: fresh(bi.tagFamilies) || sameobj(bi.tagFamilies, old(bi.tagFamilies))
 //@   ensures  shape: (fresh(bi.timestamps) || (sameobj(bi.timestamps, old(bi.timestamps)) && off(bi.timestamps) == off(old(bi.timestamps)) && cap(bi.timestamps) == cap(old(bi.timestamps)))) && (fresh(bi.versions) || (sameobj(bi.versions, old(bi.versions)) && off(bi.versions) == off(old(bi.versions)) && cap(bi.versions) == cap(old(bi.versions))))
 //@   ensures  nothing: len(b.timestamps) <= b.idx ==> samehdr(bi.timestamps, old(bi.timestamps)) && samehdr(bi.versions, old(bi.versions))
 //@   ensures  appended: len(b.timestamps) > b.idx ==> rowsAppended(bi, b, old(len(bi.timestamps)), b.idx, len(b.timestamps) - b.idx)
@@ -291,7 +292,11 @@ package measure
 //@ spec func cursorOK(b *blockPointer) bool = b != nil && len(b.versions) == len(b.timestamps) && 0 <= b.idx
 //@ spec func increasing(b *blockPointer) bool = forall a, c :: b.idx <= a && a < c && c < len(b.timestamps) ==> b.timestamps[a] < b.timestamps[c]
 //@ spec func bounded(b *blockPointer) bool = forall a :: b.idx <= a && a < len(b.timestamps) ==> b.bm.timestamps.min <= b.timestamps[a] && b.timestamps[a] <= b.bm.timestamps.max
-//@ spec func notTopN(b *blockPointer) bool = len(b.tagFamilies) == 0 || b.tagFamilies[0].name != TopNTagFamily
+//@ spec func notTopN(b *blockPointer) bool = !b.topN
+//@ func isTopNBlock
+//@   assumed reads the name of the first tag family (opaque here): recorded as the ghost flag topN of the block
+//@   pure
+//@   ensures result == b.topN
 // the rows appended to the target so far (from row n0 on)
 //@ spec func sortedFrom(t *blockPointer, n0 int) bool = forall i, j :: n0 <= i && i < j && j < len(t.timestamps) ==> t.timestamps[i] < t.timestamps[j]
 //@ spec func belowHead(t *blockPointer, n0 int, x *blockPointer) bool = forall i :: n0 <= i && i < len(t.timestamps) ==> t.timestamps[i] < x.timestamps[x.idx]
@@ -307,7 +312,6 @@ package measure
 //@   mode int
 //@   timeout 20
 //@   opt decl-pc
-//@   inline isTopNBlock
 //@   requires target != nil && target != left && target != right && left != right
 //@   requires cursorOK(left) && cursorOK(right) && notTopN(left) && notTopN(right)
 //@   requires incL: increasing(left)
@@ -320,7 +324,6 @@ package measure
 //@   modifies target.timestamps[len(target.timestamps):cap(target.timestamps)]
 //@   modifies target.versions[len(target.versions):cap(target.versions)]
 //@   modifies target.tagFamilies
-//@   modifies target.field
 //@   modifies target.bm.timestamps.min
 //@   modifies target.bm.timestamps.max
 //@   modifies left.idx
@@ -336,7 +339,7 @@ package measure
 //@   loop 0 invariant incL: increasing(left)
 //@   loop 0 invariant incR: increasing(right)
 //@   loop 0 invariant tgt: target.idx == 0 && len(target.versions) == len(target.timestamps) && len(target.timestamps) >= old(len(target.timestamps)) && sep(target, left) && sep(target, right)
-//@   loop 0 invariant shape: (fresh(target.timestamps) || (sameobj(target.timestamps, old(target.timestamps)) && off(target.timestamps) == off(old(target.timestamps)) && cap(target.timestamps) == cap(old(target.timestamps)))) && (fresh(target.versions) || (sameobj(target.versions, old(target.versions)) && off(target.versions) == off(old(target.versions)) && cap(target.versions) == cap(old(target.versions)))) && (fresh(target.tagFamilies) || sameobj(target.tagFamilies, old(target.tagFamilies))) && (fresh(target.field.columns) || sameobj(target.field.columns, old(target.field.columns)))
+//@   loop 0 invariant shape: (fresh(target.timestamps) || (sameobj(target.timestamps, old(target.timestamps)) && off(target.timestamps) == off(old(target.timestamps)) && cap(target.timestamps) == cap(old(target.timestamps)))) && (fresh(target.versions) || (sameobj(target.versions, old(target.versions)) && off(target.versions) == off(old(target.versions)) && cap(target.versions) == cap(old(target.versions)))) && (fresh(target.tagFamilies) || sameobj(target.tagFamilies, old(target.tagFamilies)))
 //@   loop 0 invariant sorted: sortedFrom(target, old(len(target.timestamps)))
 //@   loop 0 invariant belowL: belowHead(target, old(len(target.timestamps)), left)
 //@   loop 0 invariant belowR: belowHead(target, old(len(target.timestamps)), right)
